@@ -191,6 +191,12 @@ class C09(vlib.HistoryProp):
                 p.append(")")
         if waits == 0 and rng.random() < 0.8:
             p.insert(0 if rng.random() < 0.5 else len(p), "w%d" % rng.choice([1, 2, 3]))
+        # boundary code positions: the block's LAST statement is a wait (with header Z and the block last in its
+        # file the thread sleeps on the OP_DONE appended at EOF), its FIRST statement is a wait (offset 0 of a file)
+        if rng.random() < 0.35 and (not p or p[-1] != ")"):
+            p.append("w%d" % rng.choice([0, 1, 2, 3]))
+        if rng.random() < 0.12:
+            p.insert(0, "w%d" % rng.choice([1, 2]))
         return p
 
     def m_case(self, rng, cid, nthreads, nframes, nloads, origin):
@@ -215,7 +221,8 @@ class C09(vlib.HistoryProp):
             ops.insert(pos, "L")
         nx = sum(1 for o in ops if o == "X")
         ks = "all" if nx <= 12 else ",".join(str(k) for k in sorted(rng.sample(range(1, nx + 1), 4)))
-        return Case(cid, "M K=%s" % ks, ops, origin)
+        z = " Z" if rng.random() < 0.4 else ""
+        return Case(cid, "M K=%s%s" % (ks, z), ops, origin + ("-eof" if z else ""))
 
     def m_keys_case(self, rng, cid):
         """one array with 2..40 entries over mixed keys (negative ints, 0, > 2^31, > 2^32, short and long strings with
@@ -298,21 +305,29 @@ class C09(vlib.HistoryProp):
             ["P a4.1=1 a5.1=2 A4.40=5 A5.40=4 t:4,7( w1 g4=101.40 a4.5=50 w3 e101.5 e4.5 ) t:5,8( w2 g5=101.40 a5.6=60 w2 e101.6 ) w3 e4.6 e5.5 e4.5 w3 p9",
              "P C7=v1,l21,v4,v8 C8=l30,l31,v5,v7 A7.4=8 a5.1=3 A7.3=5 w2 g6=7.3 a6.2=4 e5.2 g7=8.4 e7.2 a7.2=nil w2 e8.1 e7.2 v7"],
         ]
+        # files that end without `end` (header Z): the last statement of the file is a wait, a thread sleeps on the
+        # OP_DONE at EOF; a file whose first statement is a wait; the sleeper's file differs from the other script's
+        zprogs = [
+            ["P p1 t( p2 w1 p3 w2 ) w1 p4 w3", "P w2"],
+            ["P w1 p1 w0 w2", "P p5 t( w1 ) t( p6 w3 ) w2 p7 w1"],
+            ["P a4.1=1 t:4,7( w1 a101.2=2 w2 ) w1 e4.2 w3", "P w3"],
+        ]
         sched = ["X", "T 1", "X", "T 1", "X", "T 1", "X", "T 2", "X", "T 3", "X", "X"]
         cases = []
         k = 0
-        for pi, pr in enumerate(progs):
+        for pi, pr in enumerate(progs + zprogs):
+            z = " Z" if pi >= len(progs) else ""
             base = pr + sched
             for pos in range(len(pr), len(base) + 1):
                 ops = base[:pos] + ["L"] + base[pos:]
-                cases.append(Case("x%d" % k, "M K=none", ops, "exhaustive-load-position"))
+                cases.append(Case("x%d" % k, "M K=none" + z, ops, "exhaustive-load-position" + ("-eof" if z else "")))
                 k += 1
             # twice: the instance order is reversed twice
             for pos in range(len(pr), len(base), 2):
                 ops = base[:pos] + ["L", "L"] + base[pos:]
-                cases.append(Case("x%d" % k, "M K=none", ops, "exhaustive-load-twice"))
+                cases.append(Case("x%d" % k, "M K=none" + z, ops, "exhaustive-load-twice" + ("-eof" if z else "")))
                 k += 1
-            cases.append(Case("x%d" % k, "M K=all", base, "exhaustive-monitor"))
+            cases.append(Case("x%d" % k, "M K=all" + z, base, "exhaustive-monitor" + ("-eof" if z else "")))
             k += 1
         return cases
 
@@ -407,6 +422,7 @@ class C09(vlib.HistoryProp):
         labels = ["main"] + ["l%d" % i for i in range(1, nlabels)]
         params = rng.random() < 0.5
         src = ""
+        texts = []
         lid = {"sa": 1, "sb": 2}.get(sname, 3) * 10
         for li, lname in enumerate(labels):
             body = []
@@ -473,7 +489,21 @@ class C09(vlib.HistoryProp):
             if rng.random() < 0.5:
                 ret = rng.choice(["3", '"s"', "( 1 2 3 )", "local.a", "local.i"])
             head = lname + (" local.p1 local.p2" if li > 0 and params else "")
-            src += head + ":\n" + "\n".join(body) + "\nend" + (" " + ret if ret else "") + "\n"
+            if "eof" in feats and rng.random() < 0.2:
+                body.insert(0, rng.choice(["wait 0.001", "wait 0.002", "waitframe"]))     # the first statement suspends
+            texts.append((head + ":\n" + "\n".join(body) + "\n", "end" + (" " + ret if ret else "") + "\n", li))
+        if "eof" in feats:
+            # boundary code position: the label that is textually LAST in the file ends in a suspending command
+            # and the file has no `end` after it: the thread sleeps on the OP_DONE the compiler appends at EOF
+            pick = rng.randrange(len(texts))
+            texts.append(texts.pop(pick))
+            head, _, li = texts[-1]
+            others = [l for l in labels[li + 1:]]
+            last = rng.choice(["wait 0.001", "wait 0.002", "wait 0.003", "waitframe", 'level waittill "%s"' % rng.choice(events)] +
+                              (["waitthread %s" % rng.choice(others)] if others else []))
+            texts[-1] = (head + last + ("\n" if rng.random() < 0.5 else ""), "", li)
+        for head, tail, _ in texts:
+            src += head + tail
         return src
 
     def f_case(self, rng, cid, nframes, origin, feats):
@@ -551,7 +581,8 @@ class C09(vlib.HistoryProp):
                 c.header += " H=lrqn"
                 c.ops = ["T 7", "X"] + c.ops
                 cases.append(c)
-        allf = sorted({f for _, fs in fam for f in fs if f != "survive"})
+        fam.append(("free-eof", base + ["eof"]))
+        allf = sorted({f for _, fs in fam for f in fs if f not in ("survive", "eof")})
         fam.append(("free-all", allf))
         per = 90 if quick else 1100
         for origin, feats in fam:
